@@ -12,15 +12,18 @@ PROP = "C07"
 def run(ctx):
     tot_s = tot_t = 0
     bounds = []
-    scen = ctx.pick(["T", "T,T'", "T+fetch", "T;purge@B", "T,T';purge@B", "T;purge@A", "T-to-holder", "T(d:A>B),T(e:B>A)", "T(d),T(e);purge(e)@A"], list(dsworld.SCENARIOS))
-    faults = ctx.pick(1, 2)
+    quick_plan = [(n, 1, 0) for n in ["T", "T,T'", "T+fetch", "T;purge@B", "T,T';purge@B", "T;purge@A", "T-to-holder", "T(d:A>B),T(e:B>A)", "T(d),T(e);purge(e)@A"]]
+    thorough_plan = (
+        [(n, 2, 0) for n in ["T", "T,T'", "T+fetch", "T-to-holder", "T(d:A>B),T(e:B>A)"]]
+        + [(n, 2, 1) for n in ["T;purge@B", "T;purge@A"]]
+        + [(n, 1, 1) for n in ["T,T';purge@B", "T(d),T(e);purge(e)@A", "T(d),T(e)", "T+fetch", "T,T'"]]
+        + [(n, 2, 0) for n in ["T,T';purge@B", "T(d),T(e);purge(e)@A", "T(d),T(e)"]]  # large: explored to the time budget
+    )
+    plan = ctx.pick(quick_plan, thorough_plan)
     depth = ctx.pick(60, 80)
-    budget = ctx.pick(150, 3000) / len(scen)
-    for name in common.rotate(scen, ctx.seed):
+    budget = ctx.pick(150, 4200) / len(plan)
+    for (name, f, early) in common.rotate(plan, ctx.seed):
         sc = dsworld.SCENARIOS[name]
-        f = faults if not (ctx.quick and name in ("T,T';purge@B",)) else 1
-
-        early = 0 if ctx.quick else (1 if "purge" in name else 0)
 
         def expand(hist, sc=sc, f=f, early=early):
             w = dsworld.build(sc, f, hist, early)
